@@ -49,16 +49,22 @@ def forwardref(
     else:
         name = typing.cast(str, ref)
 
-    module = _resolve_module_name(ref, module)
+    module = _resolve_module_name(name, module)
     if module is not None:
         name = name.replace(f"{module}.", "")
 
-    return ForwardRef(
+    fref = ForwardRef(
         name,
         is_argument=is_argument,
         module=module,
         is_class=is_class,
     )
+    # If we were handed the type itself there's nothing to look up by name later on
+    #   (a name can't carry the parameters of a generic or reach a nested class).
+    if not isinstance(ref, str):
+        fref.__forward_evaluated__ = True
+        fref.__forward_value__ = ref
+    return fref
 
 
 if typing.TYPE_CHECKING:
